@@ -29,7 +29,7 @@ func (x *Exec) Script(o *Obligation, withModel bool) string {
 // (dropping hypotheses is sound; a bit-vector goal is then not mixed with floating-point facts),
 // and with everything if that does not prove them.
 func familyKind(o *Obligation) bool {
-	return o.Kind == "closure" || o.Kind == "alias" || o.Kind == "delegated" || o.Kind == "delegated-requires"
+	return o.Kind == "closure" || o.Kind == "alias" || o.Kind == "delegated" || o.Kind == "delegated-requires" || o.Kind == "stmt-return"
 }
 
 func (x *Exec) script(o *Obligation, withModel, focused bool) string {
